@@ -331,6 +331,15 @@ def number_spellings(v):
             if m:
                 out.append(("float-e", r))
                 out.append(("float-E", r.replace("e", "E")))
+                # the same value with an unpadded exponent, with an explicit fraction, and written out in full
+                e_ = int(m.group(3))
+                out.append(("float-e-unpadded", "%s%se%d" % (m.group(1), m.group(2) or "", e_)))
+                out.append(("float-e-fraction", "%s%se%d" % (m.group(1), m.group(2) or ".0", e_)))
+                if -12 <= e_ < 0:
+                    from decimal import Decimal
+                    out.append(("float-plain", format(Decimal(r), "f")))
+                elif 0 <= e_ <= 22 and not m.group(2):
+                    out.append(("float-plain-int", m.group(1) + "0" * e_ + ".0"))
     good = []
     for tag, text in out:
         try:
